@@ -113,7 +113,7 @@ N_FAMILIES = {
  "C05": "num, flatten (incl. unions of list types), localindex at every axis; one union node (numbers against records, same list depth) at a random level",
  "C06": "sort and argsort along the innermost axis (both directions, stable or not, NaN first, missing leaves last, positions realise the order, ties in original order when stable; for sort also missing lists at the outermost level, which stay where they are; lists of strings and bytestrings sorted as whole units by bytes)",
  "C07": "combinations (n 1..4, with/without replacement, every axis, tuples and order equal to itertools)",
- "C08": "concat (ak.concatenate axis=0 composed from mergeable/mergemany/merge_as_union/simplify as structure.py does: same types, numerically different leaf types with the promoted dtype checked against numpy.result_type for two arrays, different types giving unions, record arrays with the same fields stored in another order, IndexedArray nodes with repeats also next to option-type arrays, blocks of one rectilinear shape as n-dimensional NumpyArrays, datetime64/timedelta64 arrays stored in different units), union_shared, astype (values_astype against numpy.astype leaf by leaf, n-dimensional arrays included), simplify_union (simplify_uniontype keeps every value, flat unions and a union nested in a union)",
+ "C08": "concat (ak.concatenate axis=0 composed from mergeable/mergemany/merge_as_union/simplify as structure.py does: same types, numerically different leaf types with the promoted dtype checked against numpy.result_type for two arrays, different types giving unions, record arrays with the same fields stored in another order, IndexedArray nodes with repeats also next to option-type arrays, blocks of one rectilinear shape as n-dimensional NumpyArrays, datetime64/timedelta64 arrays stored in different units), union_shared, astype (values_astype against numpy.astype leaf by leaf, n-dimensional arrays included, complex64/complex128 as source and target), simplify_union (simplify_uniontype keeps every value, flat unions and a union nested in a union)",
  "C09": "rpad (pad_none with/without clip at every axis), fillna (fill_none at the top option level), convert (conversions among the option encodings, project, bytemask = is_none)",
  "C11": "valid_accept (layouts obeying every documented rule -- strings, bytestrings and fixed-length strings included -- pass validityerror), valid_reject (one documented rule broken at one node: reported, or refused by the constructor) and, in EVERY family, the layout returned for a valid input passes validityerror",
  "C12": "every family: the call neither crashes nor hangs (each case runs in a forked child with a 20 s alarm), the input layouts are byte-for-byte unchanged afterwards and the result reads the same after its inputs have been dropped; invalid_nocrash (to_list / deep_copy / depth queries on layouts with one broken rule never crash); thorough tier: the same under AddressSanitizer",
